@@ -125,8 +125,9 @@ fn realisations(t: &TableM, thorough: bool, seed: u64) -> Vec<Real> {
 		in_mem: false,
 		custom_cmp: !steered.custom_cmp,
 	});
-	// a block size below the fixed overhead of an empty block (rarely: it is one configuration)
-	if pick(22, 256) == 0 {
+	// a block size below the fixed overhead of an empty block: panicked on the first add() until
+	// fix 8dad511 (an empty block is never flushed); kept as a regression probe
+	if pick(22, 32) == 0 {
 		v.push(Real {
 			block_size: [1usize, 4, 7][pick(28, 3)],
 			part_size: psizes[pick(30, 6)],
